@@ -20,7 +20,7 @@ META = dict(
     ],
     bounds=dict(
         quick="BinaryRBM (n,h) in {(1,1),(2,2),(2,3),(3,2),(3,3)}; PurificationRBM (n,h,a) in {(1,1,1),(2,1,2),(2,2,1),(2,2,2)}; all start states, all hidden/aux outcomes; k in 0..3; overwrite on/off; continued chains; three state types for sample()",
-        thorough="additionally BinaryRBM (4,2),(2,4),(4,4),(3,4); PurificationRBM (3,2,1),(2,3,2),(3,1,2),(3,2,2),(4,2,1),(3,3,3),(4,4,3)",
+        thorough="additionally BinaryRBM (4,2),(2,4),(4,4),(3,4),(5,2),(4,5),(1,4); PurificationRBM (3,2,1),(2,3,2),(3,1,2),(3,2,2),(4,2,1),(3,3,3),(4,4,3),(4,3,3),(3,4,3),(1,4,3)",
     ),
     outside=["the empirical law of the real torch.bernoulli generator (statistical; not solver-decidable)", "n > 4", "device / dtype corner cases of overwrite", "floating point saturation of sigmoid"],
     stubs=["torch.bernoulli / torch.distributions.Bernoulli.sample -> recording stub returning harness-chosen 0/1 outcomes",
@@ -283,8 +283,8 @@ def jobs(tier):
     def add(name, scen, **kw):
         J.append(dict(name=name, module="checks.c05", scenario=scen, kwargs=kw))
 
-    bin_archs = [(1, 1), (2, 2), (2, 3), (3, 2), (3, 3)] + ([(4, 2), (2, 4), (4, 4), (3, 4)] if tier != "quick" else [])
-    pur_archs = [(1, 1, 1), (2, 1, 2), (2, 2, 1), (2, 2, 2)] + ([(3, 2, 1), (2, 3, 2), (3, 1, 2), (3, 2, 2), (4, 2, 1), (3, 3, 3), (4, 4, 3)] if tier != "quick" else [])
+    bin_archs = [(1, 1), (2, 2), (2, 3), (3, 2), (3, 3)] + ([(4, 2), (2, 4), (4, 4), (3, 4), (5, 2), (4, 5), (1, 4)] if tier != "quick" else [])
+    pur_archs = [(1, 1, 1), (2, 1, 2), (2, 2, 1), (2, 2, 2)] + ([(3, 2, 1), (2, 3, 2), (3, 1, 2), (3, 2, 2), (4, 2, 1), (3, 3, 3), (4, 4, 3), (4, 3, 3), (3, 4, 3), (1, 4, 3)] if tier != "quick" else [])
     for n, h in bin_archs:
         add("kernel-positive-%dx%d" % (n, h), "kernel", kind="positive", n=n, h=h)
         add("chain-positive-%dx%d" % (n, h), "chain", kind="positive", n=n, h=h)
